@@ -301,6 +301,28 @@ theorem dispatch_types_fails : ¬ dispatch_statement := by
   · simp at ht
   · simp at hk
 
+/-- `dispatch_fixed_sound`: with the repair FD15 (shipped, not applied) the FULL dispatch statement holds — the
+accelerator named in `library_call` is in the module and declares the kernel with exactly the op's operand and
+result types. -/
+theorem dispatch_fixed_sound (accs : List Acc) (k : Kernel) (tys : List Nat) (dyn : Bool) (name : String)
+    (h : dispatchFixed accs k tys dyn = some name) :
+    ∃ a ∈ accs, (name = a.name ∨ name = a.name ++ "_stream") ∧
+      ∃ sk ∈ a.supported, sk.kind = k ∧ sk.types = tys := by
+  unfold dispatchFixed at h
+  cases hf : findAccFixed k tys accs with
+  | none => simp [hf] at h
+  | some a =>
+    obtain ⟨hm, hs⟩ := findAccFixed_some hf
+    simp only [hf, Option.map_some, Option.some.injEq] at h
+    refine ⟨a, hm, ?_, ?_⟩
+    · split at h <;> simp [← h]
+    · simp only [matchSupportedFixed, List.any_eq_true, Bool.and_eq_true, beq_iff_eq] at hs
+      exact hs
+
+/-- the D15 witness is not dispatched by the repaired pattern -/
+theorem d15_fixed_undispatched : dispatchFixed [aluAcc] .add [32, 32, 32] false = none := by decide
+example : dispatchFixed [aluAcc, gemmxAcc] .add [32, 32, 32] true = some "snax_gemmx" := by decide
+
 /-- a kernel kind no accelerator of the module declares is never dispatched -/
 theorem dispatch_unsupported (accs : List Acc) (k : Kernel) (tys : List Nat) (dyn : Bool)
     (h : ∀ a ∈ accs, ∀ sk ∈ a.supported, sk.kind ≠ k) : dispatch accs k tys dyn = .ok none := by
